@@ -78,9 +78,12 @@ func (p *Parser) AddTokenFunc(name string, tf TokenFunc) {
 // pointed to by vp.
 func (p *Parser) Unmarshal(data []byte, vp any, recomposer ...alt.Recomposer) (err error) {
 	var v any
+	orig := p.num.ForceFloat
+	p.num.ForceFloat = true
 	if v, err = p.Parse(data); err == nil {
 		_, err = alt.Recompose(v, vp)
 	}
+	p.num.ForceFloat = orig
 	return
 }
 
